@@ -22,6 +22,7 @@ RULE = (
     "bin count is not a multiple of k or < k, >=1 coarse pixel aggregating >=2 fine pixels, and chunksize < nnz. "
     "Distinct by sha1 of the canonical case."
     " CLI cases leave -c/-n to their defaults when the drawn value stands for 'not given'."
+    " CLI without --append onto an existing file that holds another collection: the file is replaced."
     " Also: the non-decomposable aggregate 'mean' on the real-valued column (1e-12 relative); histories in which another variable-width segmentation of the SAME chromosomes is coarsened by the same factor afterwards in the same process."
 )
 ASSUMPTIONS = ["real worker pools are sampled, not scheduled (C08 'schedules' component, see DESIGN section 8)"]
@@ -117,6 +118,13 @@ def check_coarsen(case, ctx: Ctx):
             kw["agg"] = {"count": case["agg_count"]}
         if "x" in cols and aggd["x"] != "sum":
             kw.setdefault("agg", {})["x"] = aggd["x"]
+        preexisting = case.get("via") == "cli" and case["dest"] == "" and case["chunksize"] in (2, 7)
+        if preexisting:
+            # the output file already exists and holds another collection and an unrelated attribute: without --append the
+            # command writes a NEW file ("overwriting the file")
+            call("create the file that is in the way", create_from_model, out_uri + "::/old/keep", bt, rows[:1], symmetric, cols=("count", "x"))
+            with h5py.File(out_uri, "r+") as f_:
+                f_.attrs["unrelated"] = "x"
         if case.get("via") == "cli":
             from ..cliutil import run_cli
 
@@ -137,6 +145,14 @@ def check_coarsen(case, ctx: Ctx):
         else:
             call(f"coarsen_cooler(k={k}, chunksize={case['chunksize']}, nproc={case['nproc']})", cooler.coarsen_cooler,
                  base, out_uri, k, case["chunksize"], nproc=case["nproc"], h5opts={"compression": None}, **kw)
+        if preexisting:
+            from cooler.fileops import list_coolers
+
+            left = list_coolers(out_uri)
+            with h5py.File(out_uri, "r") as f_:
+                stale = "unrelated" in f_.attrs
+            check(left == ["/"] and not stale,
+                  lambda: f"cooler coarsen -o FILE without --append on an existing file: the file still holds {left} and the old root attribute is {'still there' if stale else 'gone'}; write mode replaces the file")
         clr = cooler.Cooler(out_uri)
         want_bt = model.coarsen_bins(bt, k)
         got_bins = model.read_bins(clr)
